@@ -9,5 +9,6 @@ CONSTANTS N = 2
   G_SCALAR = TRUE
   G_STMFIRST = TRUE
   G_CHAIN = TRUE
+  G_GLOBDEPTH = FALSE
 PROPERTY Termination
 CHECK_DEADLOCK FALSE
